@@ -56,7 +56,32 @@ def with_refused_activation(rng, sc):
     return sc
 
 
+def gen_failing_nested(rng, tier):
+    """Two total probes: E(x) > Y > Z(z), and Y(v) whose subscriber fails when a call of Y is
+    wound up.  E survives that and carries on calling (Z directly, too): the record of E's call
+    still holds the values of z from calls of Z made under Y, and from nothing else."""
+    y, z = rng.sample(c03.FNS, 2)
+    t1 = {"levels": [{"fn": "E", "caps": [{"var": "x", "as": "x0"}], "sibs": []},
+                     {"fn": y, "caps": [], "sibs": []},
+                     {"fn": z, "caps": [{"var": rng.choice(c03.local_vars(z)), "as": "z2"}], "sibs": []}],
+          "focus": None, "mode": "total"}
+    t2 = {"levels": [{"fn": y, "caps": [{"var": rng.choice(c03.local_vars(y)), "as": "v0"}], "sibs": []}],
+          "focus": None, "mode": "total"}
+    ops = [{"op": "mk", "id": "p0", "sels": [t1], "inv": "C07.records", "raw": True},
+           {"op": "mk", "id": "p1", "sels": [t2], "inv": "C07.records", "raw": True}]
+    first, second = rng.sample(["p0", "p1"], 2)
+    ops += [{"op": "enter", "id": first}, {"op": "enter", "id": second},
+            {"op": "stage", "id": "p1", "kind": "whole", "cap": None, "raises": rng.choice([1, 1, 2, 3])}]
+    tl = 50 if tier == "quick" else 100
+    for _ in range(rng.randint(2, 4)):
+        ops.append({"op": "call", "fn": "E", "nargs": 1,
+                    "tape": c03.tree_tape(rng, rng.randint(10, tl), {y, z}, 0.9, 0.1), "faults": {}})
+    return {"prog": "calltree", "ops": ops, "exact_failures": True}
+
+
 def gen(rng, tier, quarantine=()):
+    if "no-failing-subscriber" not in quarantine and rng.random() < 0.12:
+        return gen_failing_nested(rng, tier)
     sc = _gen(rng, tier, quarantine)
     if "no-refused-activation" not in quarantine and sc["prog"] == "calltree" and rng.random() < 0.2:
         sc = with_refused_activation(rng, sc)
